@@ -3,19 +3,22 @@ from __future__ import annotations
 
 from fractions import Fraction
 
-from common import lean_driver, rng, unhexs
+from common import hexs, lean_driver, rng, unhexs
 from oracle import DatasetView, parse_frac
 
 NEEDS_DATASET = True
 TARGETS = ["RdVerif.Props.C16", "RdVerif.Props.C16Inv"]
 THEOREMS = ["RdVerif.C16.diagram_is_decay_subgraph", "RdVerif.C16.queue_drained_witness",
-            "RdVerif.C16.C16_positions_injective", "RdVerif.C16.C16_edges_from_links", "RdVerif.C16.C16_node_names_nodup"]
+            "RdVerif.C16.C16_positions_injective", "RdVerif.C16.C16_edges_from_links", "RdVerif.C16.C16_node_names_nodup",
+            "RdVerif.C16.C16_nodes_sound", "RdVerif.C16.C16_nodes_complete", "RdVerif.C16.C16_rows_are_distances",
+            "RdVerif.C16.C16_queue_drained", "RdVerif.C16.C16_checked_dataset"]
 PARTIAL = {
-    "nodes_eq_reachable_partial / row_eq_bfs_distance_partial":
-        "proved by kernel evaluation for every root of the shipped dataset (builder = independent specification). For ALL "
-        "datasets: positions pairwise distinct, edges = listed links with their mode/bf (C16_positions_injective, "
-        "C16_edges_from_links), names pairwise distinct under DiagramWF (C16_node_names_nodup; counterexamples without it); "
-        "node set = reachable set and row = BFS distance for all datasets are not proved",
+    "labels / rendering":
+        "node set = reachable set, rows = minimum number of decays, distinct names and positions, edges = listed links are "
+        "theorems for EVERY dataset on which the executable checker reachWFb returns true (C16_checked_dataset; the driver "
+        "evaluates reachWFb on every synthetic / artificial dataset of the run and, by compiled evaluation, on the shipped "
+        "one), and for the shipped dataset additionally a kernel decision per root. The text of node/edge labels and "
+        "what Matplotlib/networkx draw are compared per input, not proved",
 }
 ASSUMPTIONS = ["networkx stores nodes/edges/attributes as given; Matplotlib rendering not modelled"]
 
@@ -65,7 +68,11 @@ def correspondence(rep, ctx):
         "Nuclide.plot read back for a sample. distinct = roots")
     roots = list(range(view.n))
     lines = [f"diagram\ticrp107\t{i}" for i in roots]
-    model = lean_driver(lines) if ctx.build_ok else None
+    model = lean_driver(lines + ["reach_wf\ticrp107"]) if ctx.build_ok else None
+    if model is not None:
+        # the hypotheses of the for-all-datasets theorems hold for the shipped dataset (compiled evaluation of reachWFb)
+        if model.pop() != "ok true":
+            ctx.broken.append("correspondence:reachWFb(icrp107)")
     bad = 0
 
     def fail(root, msg):
@@ -110,13 +117,125 @@ def correspondence(rep, ctx):
                 fail(root, "the diagram on a sub-dataset holding the whole chain differs from the one on the full dataset")
         except Exception as e:  # noqa: BLE001
             fail(root, f"diagram on a sub-dataset raised {type(e).__name__}: {e}")
+    # ---- synthetic datasets (new half-lives / branching fractions, loaded through load_dataset(dir_path=…)): every root,
+    #      against the Lean builder run on the same dataset and the independent reading
+    import synthetic
+    for k in range(8 if thorough else 2):
+        tag = f"c16_{ctx.seed}_{k}"
+        ds, sch, path = synthetic.build(rd, view, r, tag)
+        try:
+            sview = DatasetView(ds)
+            prelude = synthetic.driver_lines(ds, "syn")
+            smodel = None
+            if ctx.build_ok:
+                out = lean_driver(prelude + [f"diagram\tsyn\t{i}" for i in range(sview.n)] + ["reach_wf\tsyn"])
+                smodel = out[len(prelude):-1]
+                if out[-1] != "ok true":
+                    ctx.broken.append("correspondence:synthetic-dataset:reachWFb")
+            for i in range(sview.n):
+                ok, msg = judge_root(rd, sview, i, smodel[i] if smodel is not None else None, build, nx, ds=ds)
+                rep.case(("synthetic-root", tag, sview.names[i]))
+                rep.dist("synthetic-dataset-roots")
+                if not ok:
+                    bad += 1
+                    if bad <= 4:
+                        rep.violation("failing-input", f"diagram of {sview.names[i]} on a synthetic dataset (nuclides "
+                                      f"{sch['names'][:5]}…, new half-lives/branching fractions): {msg}",
+                                      {"call": "diagram-synthetic", "names": sch["names"]}, True)
+        finally:
+            synthetic.cleanup(path)
+    # ---- artificial datasets with dense branching and every metastable state letter (constructor route)
+    for k in range(30 if thorough else 8):
+        ds, dlines = dense_dataset(rd, r, k)
+        dview = DatasetView(ds)
+        dmodel = None
+        if ctx.build_ok:
+            out = lean_driver(dlines + [f"diagram\tdense\t{i}" for i in range(dview.n)] + [f"diagram_ok\tdense\t{i}" for i in range(dview.n)] + ["reach_wf\tdense"])
+            dmodel = out[len(dlines):len(dlines) + dview.n]
+            # the builder model agrees with the executable specification (reachability, layered distance) on this dataset
+            if any(o != "ok true" for o in out[len(dlines) + dview.n:-1]):
+                ctx.broken.append("correspondence:dense-dataset:builder-model-vs-specification")
+            if out[-1] != "ok true":      # hypotheses of C16_checked_dataset (names/links well formed) fail: generator bug
+                ctx.broken.append("correspondence:dense-dataset:reachWFb")
+            if any(o == "bad-request" for o in out[:len(dlines)]):
+                ctx.broken.append("correspondence:dense-dataset-lines")
+        for i in range(dview.n):
+            try:
+                ok, msg = judge_root(rd, dview, i, dmodel[i] if dmodel is not None else None, build, nx, ds=ds)
+            except Exception as e:  # noqa: BLE001
+                ok, msg = False, f"raised {type(e).__name__}: {e}"
+            rep.case(("dense-root", k, dview.names[i]))
+            rep.dist("dense-dataset-roots")
+            if not ok:
+                bad += 1
+                if bad <= 4:
+                    rep.violation("failing-input", f"diagram of {dview.names[i]} on an artificial dataset (nuclides "
+                                  f"{dview.names[:8]}…, progeny of the root {list(ds.progeny[i])}): {msg}",
+                                  {"call": "diagram-dense", "names": dview.names, "progeny": [list(x) for x in ds.progeny]}, True)
     rep.corr["exhaustive"] = True
     rep.notes["mismatches"] = bad
 
 
-def judge_root(rd, view, i, model_line, build, nx):
+def dense_dataset(rd, r, k):
+    """an artificial dataset for the diagram builder only (identity matrices): 6-18 nuclides, names with every state
+    letter, 1-4 progeny per radioactive nuclide among the later nuclides (dense branching, shared progeny), optional SF"""
+    import numpy as np
+    from scipy import sparse
+    import synthetic
+    n = r.randint(6, 18)
+    names = []
+    while len(names) < n:
+        nm = f"{r.choice(['H', 'He', 'C', 'Fe', 'U', 'Pu', 'Og', 'Xe', 'W'])}-{r.randint(1, 299)}{r.choice(['', '', 'm', 'n', 'p', 'q', 'r', 'x'])}"
+        if nm not in names:
+            names.append(nm)
+    nstable = r.randint(1, 3)
+    prog, bfs, modes, hld = [], [], [], []
+    for i in range(n):
+        later = list(range(i + 1, n))
+        if i >= n - nstable or not later:
+            prog.append([]); bfs.append([]); modes.append([])
+            hld.append((np.inf, "s", "stable"))
+            continue
+        kk = min(len(later), r.choice([1, 2, 2, 3, 4]))
+        ps = [names[j] for j in r.sample(later, kk)]
+        if r.random() < 0.3:
+            ps.insert(r.randrange(len(ps) + 1), "SF")
+        cuts = sorted(r.sample(range(1, 1000), len(ps) - 1)) if len(ps) > 1 else []
+        parts = sorted((b - a for a, b in zip([0] + cuts, cuts + [1000])), reverse=True)
+        prog.append(ps)
+        bfs.append([p / 1000 for p in parts])
+        modes.append([("SF" if p == "SF" else r.choice(["α", "β-", "β+ & EC", "IT", "EC", "β-n"])) for p in ps])
+        v = float(f"{10.0 ** r.uniform(-2, 3):.3g}")
+        u = r.choice(["s", "m", "h", "d", "y"])
+        hld.append((v, u, f"{v} {u}"))
+
+    def obj(rows):
+        a = np.empty(n, dtype=object)
+        for i, x in enumerate(rows):
+            a[i] = list(x)
+        return a
+    eye = sparse.identity(n, format="csr")
+    consts = np.array([0.0 if np.isinf(h[0]) else 1.0 for h in hld])
+    sd = rd.decaydata.DecayMatricesScipy(np.ones(n), consts, eye, eye)
+    hl = np.empty((n, 3), dtype=object)
+    for i, h in enumerate(hld):
+        hl[i, 0], hl[i, 1], hl[i, 2] = np.float64(h[0]), h[1], h[2]
+    ds = rd.decaydata.DecayData(f"verif_dense_{k}", obj(bfs), 365.2422, hl, obj(modes), np.array(names), obj(prog), sd)
+    index = {nm: i for i, nm in enumerate(names)}
+    lines = [f"ds_new\t{n}\t365/1\t365/1"]
+    for i in range(n):
+        stable = np.isinf(hld[i][0])
+        lines.append("\t".join(["ds_nuc", hexs(names[i]), "inf" if stable else synthetic.fr(synthetic.dec(hld[i][0])), str(synthetic.bits(hld[i][0])),
+                                hexs(hld[i][1]), hexs(hld[i][2]), "0" if stable else "1", "1", "1", "0" if stable else "1", "1"]))
+        for p, b, md in zip(prog[i], bfs[i], modes[i]):
+            lines.append("\t".join(["ds_link", str(index[p]) if p in index else "-", hexs(p), synthetic.fr(synthetic.dec(b)), str(synthetic.bits(b)), hexs(md)]))
+    lines.append("ds_done\tdense")
+    return ds, lines
+
+
+def judge_root(rd, view, i, model_line, build, nx, ds=None):
     name = view.names[i]
-    nuc = rd.Nuclide(name)
+    nuc = rd.Nuclide(name) if ds is None else rd.Nuclide(name, ds)
     g, max_gen, max_x = build(nuc, nx.DiGraph())
     nodes = {str(n): dict(a) for n, a in g.nodes(data=True)}
     edges = {(str(a), str(b)): dict(d) for a, b, d in g.edges(data=True)}
